@@ -25,15 +25,18 @@ Theorem C05_progress : forall B d k, 1 <= B -> eof_delivered d = false -> unread
 Proof. exact copy_progress. Qed.
 Theorem C05_eof : forall B d k, eof_delivered d = false -> unread d = [] -> src_closed d = true -> eof_delivered (rstep B d (RCopy k)) = true.
 Proof. exact copy_eof. Qed.
+Print Assumptions C05_eof.
 Print Assumptions C05_progress.
 
 (* the copy buffer of the processor (regenerated from proc/tcp/proc.go) can hold at least one byte, so C05_progress applies *)
 Theorem C05_buffer : 1 <= tcp_buf_size.
 Proof. exact tcp_buf_ok. Qed.
+Print Assumptions C05_buffer.
 
 (* half-close: what happens in one direction (including its end) does not touch the other *)
 Theorem C05_directions_independent : forall B c2b b2c extra, snd (both B (c2b ++ extra) b2c) = snd (both B c2b b2c).
 Proof. exact directions_independent. Qed.
+Print Assumptions C05_directions_independent.
 
 Example C05_sample : delivered (rrun 4 [RSend [1;2;3;4;5;6;7]; RCopy 100; RFinish; RCopy 2; RCopy 9; RCopy 1]) = [1;2;3;4;5;6;7] /\
   eof_delivered (rrun 4 [RSend [1;2;3;4;5;6;7]; RCopy 100; RFinish; RCopy 2; RCopy 9; RCopy 1]) = true.
